@@ -21,26 +21,50 @@ type bytes, Source or obsolete GoldSrc info layout with or without mod data, The
 rules), every engine and gathering setting, every port, every retry count, every behaviour of the external decoders,
 and every exchange in which each of the three requests is answered after ANY number of challenge rounds (any challenge
 bytes) and the final reply comes in one datagram or split — Source layout for Source engines (uncompressed, ≤ 255
-fragments), GoldSrc layout for GoldSrc engines (≤ 15 fragments), any cut points — with every datagram within the
+fragments), GoldSrc layout for GoldSrc engines (≤ 15 fragments), any cut points (`wfExchanges`; `uncompressed`:
+the bzip2 variant is `C02_whole_compressed`) — with every datagram within the
 client's 6144-byte receive buffer: `valve::query` returns exactly the response the SPEC entitles the user to, i.e.
 the state field for field (`BadGame` exactly when the app-id check says so). -/
 theorem C02_whole (ext : Ext) (port retries : Nat) (cfg : Config) (st : State)
-    (hwf : wf cfg st = true) (hx : wfExchanges cfg = true) (hfit : fits (script cfg st) = true) :
+    (hwf : wf cfg st = true) (hx : wfExchanges cfg = true) (hu : uncompressed cfg = true)
+    (hfit : fits (script cfg st) = true) :
     (Valve.query ext port cfg.engine cfg.gather retries (Net.init [.opened ((script cfg st).map .data)] [])).1
       = expected cfg st := by
+  simp only [uncompressed, Bool.and_eq_true, Bool.not_eq_true'] at hu
   rw [script_eq_scriptAs] at hfit ⊢
-  exact query_whole ext port retries cfg st hwf hx _ _ _ (List.Perm.refl _) (List.Perm.refl _) (List.Perm.refl _) hfit
+  exact query_whole ext port retries cfg st hwf hx (bzOk_of_uncompressed _ _ _ hu.1.1)
+    (bzOk_of_uncompressed _ _ _ hu.1.2) (bzOk_of_uncompressed _ _ _ hu.2) _ _ _
+    (List.Perm.refl _) (List.Perm.refl _) (List.Perm.refl _) hfit
 
 /-- The same when the fragments of each split reply arrive in ANY order (UDP keeps none): `ai`, `ap`, `ar` are
 arbitrary permutations of the datagrams carrying the three final replies (composition with C08's
 `C08_valve_any_order`). -/
 theorem C02_whole_any_order (ext : Ext) (port retries : Nat) (cfg : Config) (st : State)
-    (hwf : wf cfg st = true) (hx : wfExchanges cfg = true) (ai ap ar : List Bytes)
+    (hwf : wf cfg st = true) (hx : wfExchanges cfg = true) (hu : uncompressed cfg = true) (ai ap ar : List Bytes)
+    (hai : ai.Perm (infoDatagrams cfg st)) (hap : ap.Perm (playersDatagrams cfg st))
+    (har : ar.Perm (rulesDatagrams cfg st)) (hfit : fits (scriptAs cfg ai ap ar) = true) :
+    (Valve.query ext port cfg.engine cfg.gather retries (Net.init [.opened ((scriptAs cfg ai ap ar).map .data)] [])).1
+      = expected cfg st := by
+  simp only [uncompressed, Bool.and_eq_true, Bool.not_eq_true'] at hu
+  exact query_whole ext port retries cfg st hwf hx (bzOk_of_uncompressed _ _ _ hu.1.1)
+    (bzOk_of_uncompressed _ _ _ hu.1.2) (bzOk_of_uncompressed _ _ _ hu.2) ai ap ar hai hap har hfit
+
+/-- With bzip2-compressed Source split replies (any of the three, mixed freely with the other transports; fragment 0
+announces size and CRC-32, bit 31 of the id set).  bzip2-rs and crc32fast are parameters of the model (`ext`), the
+server's compressor is the parameter `compress`; the hypothesis is the law that ties them: the client's decoder
+inverts the server's compressor (`hlaw`), and each compressed reply carries `compress reply` and the checksum the
+client's CRC-32 computes for the reply, the reply being within the client's 4 MiB decompression limit (`hcar`).
+Any arrival order of the fragments. -/
+theorem C02_whole_compressed (ext : Ext) (compress : Bytes → Bytes) (hlaw : ∀ p, ext.bunzip (compress p) = some p)
+    (port retries : Nat) (cfg : Config) (st : State)
+    (hwf : wf cfg st = true) (hx : wfExchanges cfg = true) (hcar : carries compress ext.crc32 cfg st)
+    (ai ap ar : List Bytes)
     (hai : ai.Perm (infoDatagrams cfg st)) (hap : ap.Perm (playersDatagrams cfg st))
     (har : ar.Perm (rulesDatagrams cfg st)) (hfit : fits (scriptAs cfg ai ap ar) = true) :
     (Valve.query ext port cfg.engine cfg.gather retries (Net.init [.opened ((scriptAs cfg ai ap ar).map .data)] [])).1
       = expected cfg st :=
-  query_whole ext port retries cfg st hwf hx ai ap ar hai hap har hfit
+  query_whole ext port retries cfg st hwf hx (bzOk_of_law ext compress hlaw _ _ hcar.1)
+    (bzOk_of_law ext compress hlaw _ _ hcar.2.1) (bzOk_of_law ext compress hlaw _ _ hcar.2.2) ai ap ar hai hap har hfit
 
 /-- What `expected` is, spelled out: the info block is the state's, the players and the rules are the state's exactly
 when that section is asked for (Risk of Rain 2: without the rule `Test`, as documented). -/
@@ -83,11 +107,12 @@ theorem C02_game_view_fields (cfg : Config) (st : State) (r : Response) (h : exp
 
 /-- The two together: the game response of the whole query against a conforming server. -/
 theorem C02_whole_game_view (ext : Ext) (port retries : Nat) (cfg : Config) (st : State)
-    (hwf : wf cfg st = true) (hx : wfExchanges cfg = true) (hfit : fits (script cfg st) = true) :
+    (hwf : wf cfg st = true) (hx : wfExchanges cfg = true) (hu : uncompressed cfg = true)
+    (hfit : fits (script cfg st) = true) :
     (Games.mapQ Games.gameView (Valve.query ext port cfg.engine cfg.gather retries)
         (Net.init [.opened ((script cfg st).map .data)] [])).1
       = (expected cfg st >>= fun r => Res.ok (Games.gameView r)) := by
-  have h := C02_whole ext port retries cfg st hwf hx hfit
+  have h := C02_whole ext port retries cfg st hwf hx hu hfit
   unfold Games.mapQ
   rw [Q.bind_apply]
   revert h
@@ -123,7 +148,7 @@ example (ext : Ext) (port retries : Nat) :
         (Net.init [.opened ((script C02_whole_demoCfg C02_whole_demoState).map .data)] [])).1
       = .ok ⟨C02_whole_demoState.info, some C02_whole_demoState.players, some C02_whole_demoState.rules⟩ := by
   refine ⟨by decide, by decide, by decide, ?_⟩
-  have h := C02_whole ext port retries C02_whole_demoCfg C02_whole_demoState (by decide) (by decide) (by decide)
+  have h := C02_whole ext port retries C02_whole_demoCfg C02_whole_demoState (by decide) (by decide) (by decide) (by decide)
   rw [show expected C02_whole_demoCfg C02_whole_demoState
     = .ok ⟨C02_whole_demoState.info, some C02_whole_demoState.players, some C02_whole_demoState.rules⟩ by decide] at h
   exact h
@@ -139,8 +164,24 @@ example (ext : Ext) (port retries : Nat) :
       = expected C02_whole_demoCfg C02_whole_demoState := by
   intro ds ai
   refine ⟨by decide, ?_⟩
-  exact C02_whole_any_order ext port retries C02_whole_demoCfg C02_whole_demoState (by decide) (by decide) ai _ _
+  exact C02_whole_any_order ext port retries C02_whole_demoCfg C02_whole_demoState (by decide) (by decide) (by decide) ai _ _
     (List.perm_append_comm.trans (by rw [List.take_append_drop])) (List.Perm.refl _) (List.Perm.refl _) (by decide)
+
+-- compressed: the rules reply as a 3-fragment compressed split; the law is satisfiable (an `ext` whose decoder
+-- inverts `compress`: here both the identity, checksum constant), so are the other hypotheses
+example (port retries : Nat) :
+    let ext : Ext := ⟨some, fun _ => 7⟩
+    let packet := reply 0x45 (encRules C02_whole_demoState.rules)
+    let cfg : Config := { C02_whole_demoCfg with rules := ⟨[[9, 9, 9, 9]], .sourceSplitBz (2 ^ 31 + 5) [4, 4] packet 7⟩ }
+    (rulesDatagrams cfg C02_whole_demoState).length = 3 ∧
+    (Valve.query ext port cfg.engine cfg.gather retries
+        (Net.init [.opened ((script cfg C02_whole_demoState).map .data)] [])).1
+      = expected cfg C02_whole_demoState := by
+  intro ext packet cfg
+  refine ⟨by decide, ?_⟩
+  rw [script_eq_scriptAs]
+  exact C02_whole_compressed ext id (fun _ => rfl) port retries cfg C02_whole_demoState (by decide) (by decide)
+    ⟨trivial, trivial, rfl, rfl, by decide⟩ _ _ _ (List.Perm.refl _) (List.Perm.refl _) (List.Perm.refl _) (by decide)
 
 -- the game view of that state
 example : (Games.gameView ⟨C02_whole_demoState.info, some C02_whole_demoState.players, some C02_whole_demoState.rules⟩).playersDetails
